@@ -1,7 +1,8 @@
 (* Extraction of the expand (C09) and subs (C11) models together with the expression core. *)
-From SE Require Import Expr.IO Expr.ArithGuards C09.ExpandModel C11.SubsModel C09.ExpandGuards C09.ExpandGuardedOps C11.SubsGuards.
+From SE Require Import Expr.IO Expr.ArithGuards C09.ExpandModel C11.SubsModel C09.ExpandGuards C09.ExpandGuardedOps
+  C11.SubsGuards C11.SubsGuardedOps.
 Require Import ExtrOcamlBasic.
 Extraction "semodel.ml" N_of_digits Z_of_digits digits_of_N tc_lookup tc_table wf
   hash expr_eqb expr_cmp expr_keyless canonical
   expand multinomial_coefficients expanded poly_frag xpoly_frag expand_guard
-  subs_gen mk_dict occurs_any keys_consistent single_pow_key.
+  subs_gen mk_dict occurs_any keys_consistent single_pow_key subs_guard.
